@@ -338,6 +338,14 @@ def e2e_configs(tier):
     cfgs.append((None, ["sonar:python/url-sandbox"], "sonar"))
     cfgs.append((None, ["*url-sandbox"], "sarif"))
     cfgs.append((["pixee:python/secure-random"], ["pixee:python/url-sandbox"], "fix"))
+    # an include option that names nothing (empty value, only separators) selects nothing; empty pieces between ids are unknown
+    # ids like any other: the named codemods still run, in order.  The exclude option naming nothing excludes nothing.
+    for mode in ("fix", "sonar", "sarif"):
+        cfgs.append(([""], None, mode))
+    cfgs += [(["", ""], None, "fix"), (["", "", ""], None, "sonar"),
+             (["pixee:python/url-sandbox", "", "pixee:python/secure-random"], None, "fix"),
+             (["", "pixee:python/secure-random"], None, "fix"), (["pixee:python/secure-random", ""], None, "fix"),
+             (None, [""], "sonar")]
     if tier == "thorough":
         cheap = ["pixee:python/secure-random", "pixee:python/url-sandbox", "pixee:python/order-imports", "pixee:python/secure-*", "*sandbox", "pixee:python/no-such-codemod"]
         for a, b in itertools.permutations(cheap, 2):
